@@ -375,7 +375,63 @@ class FnIntervals:
                 key = 'M:' + n['n']
                 if key in self.tracked:
                     return key
+        if n['k'] in ('MemberExpr', 'ArraySubscriptExpr'):
+            return self._path_id(n)
         return None
+
+    def _path_id(self, n):
+        """'L:<root decl>:<path>' for an integer element/field of a local array/struct reached through constant
+        subscripts and `.` members (operands[2].value); these are tracked like variables and killed whenever the
+        root object is passed to a call or stored through a non-constant subscript."""
+        t = self.fn.type(n)
+        if type_range(t) == TOP:
+            return None
+        cache = self.__dict__.setdefault('_pid', {})
+        if n['i'] in cache:
+            return cache[n['i']]
+        parts = []
+        x = n
+        key = None
+        while True:
+            if x['k'] == 'MemberExpr' and not x.get('arrow') and not x.get('method') and kids(x):
+                parts.append('.' + x['n'])
+                x = strip(kids(x)[0])
+            elif x['k'] == 'ArraySubscriptExpr' and 'bound' in x:
+                iv = const(kids(x)[1])
+                if iv is None:
+                    break
+                parts.append('[%d]' % iv)
+                x = strip(kids(x)[0])
+            elif x['k'] == 'DeclRefExpr' and x.get('dk') == 'local' and parts:
+                key = 'L:%d:%s' % (x['d'], ''.join(reversed(parts)))
+                self.tracked.setdefault(key, t)
+                self.__dict__.setdefault('_roots', {}).setdefault(x['d'], set()).add(key)
+                break
+            else:
+                break
+        cache[n['i']] = key
+        return key
+
+    def _kill_root(self, st, d):
+        for key in [k for k in st if isinstance(k, str) and k.startswith('L:%d:' % d)]:
+            del st[key]
+        pre = 'L:%d:' % d
+        dead = [kk for kk, v in st.items() if isinstance(kk, tuple) and any(isinstance(x, str) and x.startswith(pre) for x in v[1])]
+        for kk in dead:
+            del st[kk]
+
+    def _roots_in(self, n):
+        """Local root decls mentioned (not through a constant-path read) in an argument expression."""
+        out = set()
+        st = [n]
+        while st:
+            x = st.pop()
+            if x is None:
+                continue
+            if x['k'] == 'DeclRefExpr' and x.get('dk') == 'local':
+                out.add(x['d'])
+            st.extend(kids(x))
+        return out
 
     def _call_kills_members(self, n):
         if not self.hier:
@@ -405,6 +461,16 @@ class FnIntervals:
             if rec:
                 return self.an.field_range(rec, d[2:], self.tracked.get(d))
         return type_range(self.tracked.get(d))
+
+    def _reassigned_params(self):
+        out = set()
+        for n in self.fn.nodes.values():
+            if n['k'] in ('BinaryOperator', 'CompoundAssignOperator', 'UnaryOperator') and (
+                    n.get('op') in ('++', '--') or (n.get('op', '').endswith('=') and n['op'] not in ('==', '!=', '<=', '>='))):
+                t = strip(kids(n)[0])
+                if t['k'] == 'DeclRefExpr' and t.get('dk') == 'param':
+                    out.add(t['d'])
+        return out
 
     def _field_owner(self, name):
         for c in self.hier:
@@ -530,6 +596,22 @@ class FnIntervals:
                     return r
                 name = ck.split('@')[0]
                 if name in ('strlen',):
+                    a0 = strip(call_args(n)[0], casts=True) if call_args(n) else None
+                    if a0 is not None and a0['k'] == 'DeclRefExpr':
+                        ta = fn.type(a0) or ''
+                        if '[' in ta:
+                            try:
+                                return (0, int(ta.split('[')[1].split(']')[0]) - 1)
+                            except ValueError:
+                                pass
+                        if a0.get('dk') == 'param' and getattr(self.an, 'cg', None) is not None:
+                            pi = [i for i, pp in enumerate(fn.params()) if pp['d'] == a0['d']]
+                            reassigned = a0['d'] in self.__dict__.setdefault('_reassigned', self._reassigned_params())
+                            if pi and not reassigned:
+                                from rules.idx import _param_bound
+                                pb = _param_bound(self.prog, self.an.cg, fn, pi[0], 0, max)
+                                if pb:
+                                    return (0, pb - 1)
                     return (0, None)
                 if name in ('abs',):
                     return (0, None)
@@ -744,9 +826,30 @@ class FnIntervals:
         if k in ('CallExpr', 'CXXMemberCallExpr', 'CXXConstructExpr', 'CXXOperatorCallExpr'):
             if (n.get('callee') or '') not in self.PURE_CALLS:
                 self._kill_deps(st, lambda x: x == '*mem*')
+            roots = self.__dict__.get('_roots')
+            if roots:
+                for a in kids(n)[1:] if k != 'CXXConstructExpr' else kids(n):
+                    if a is None:
+                        continue
+                    # an argument that is just the value of a tracked path (operands[0].value) does not expose the object
+                    sa = strip(a, casts=True)
+                    if sa['k'] in ('MemberExpr', 'ArraySubscriptExpr') and self._path_id(sa) is not None and not sa.get('lv_ref'):
+                        pa = self.fn.parent.get(a['i'])
+                        if a['k'] == 'ImplicitCastExpr' and a.get('ck') == 'LValueToRValue':
+                            continue
+                    for d in self._roots_in(a):
+                        if d in roots:
+                            self._kill_root(st, d)
         if k in ('BinaryOperator', 'CompoundAssignOperator', 'UnaryOperator') and (
                 n.get('op') in ('++', '--') or (n.get('op', '').endswith('=') and n['op'] not in ('==', '!=', '<=', '>='))):
             tgt = strip(kids(n)[0])
+            if tgt['k'] in ('MemberExpr', 'ArraySubscriptExpr') and self._path_id(tgt) is None:
+                # store through a non-constant subscript / pointer: every tracked path of the same root may change
+                roots = self.__dict__.get('_roots')
+                if roots:
+                    for d in self._roots_in(tgt):
+                        if d in roots:
+                            self._kill_root(st, d)
             if tgt['k'] == 'DeclRefExpr':
                 dd = tgt.get('d')
                 self._kill_deps(st, lambda x: x == dd or x == 'G:' + tgt.get('n', ''))
